@@ -19,6 +19,12 @@
 //	          exist yet), or an "init" line of justify.txt
 //	confined  a "confined:<owner>" line of justify.txt: all rows with that
 //	          owner run in one goroutine per object
+//	pub:<tag> a "pub:<tag>" line: FIELD-level publication. The object is already
+//	          shared; one goroutine per object writes the field and afterwards
+//	          starts (go) / messages (channel send) the goroutines that use it
+//	after:<tag> an "after:<tag>" line: a site run only by goroutines that the
+//	          pub:<tag> writer started / messaged after its write. One line per
+//	          site, no wildcard: a site nobody listed stays plain
 //
 // Writes are: assignment / op= / ++ / -- targets (including x.f[k] = v and the
 // enclosing struct-valued fields of a nested target), delete/clear/copy
@@ -48,8 +54,10 @@
 //
 // The pairwise predicate (also evaluated here, "unsafe_pairs"): two rows of
 // one field, possibly the same row twice, are SAFE iff both are reads, or
-// both atomic, or one is init, or both confined with the same owner, or
-// their locksets intersect.
+// both atomic, or one is init (object-level), or both confined with the same
+// owner, or both pub with the same tag, or one pub:<tag> and the other
+// after:<tag>, or their locksets intersect. In particular a pub write and a
+// plain site without a common lock are UNSAFE.
 //
 // # Output (stdout, JSON lines, deterministic)
 //
@@ -68,7 +76,7 @@
 //     EMPTY packages: only expressions whose static type is declared in the
 //     analysed package resolve; mutex/atomic fields are recognised from the
 //     declared type expression sync.Mutex, sync.RWMutex, atomic.*);
-//   - justify.txt: every init / confined line is a hand-made argument. The
+//   - justify.txt: every init / confined / pub / after line is a hand-made argument. The
 //     tool only checks that the named field and function exist and that the
 //     function really accesses the field (staleness), nothing else;
 //   - the pairwise predicate itself (C15's Coq side restates it).
@@ -235,17 +243,20 @@ func main() {
 	}
 	stale := applyJustify(filepath.Base(jfile), jlines, rowsByField, knownFields)
 
-	funcSet, ownerSet := map[string]bool{}, map[string]bool{}
+	funcSet, ownerSet, tagSet := map[string]bool{}, map[string]bool{}, map[string]bool{}
 	for _, rows := range rowsByField {
 		for _, r := range rows {
 			funcSet[r.fn] = true
 			if r.class == "confined" {
 				ownerSet[r.owner] = true
 			}
+			if r.class == "pub" || r.class == "after" {
+				tagSet[r.owner] = true
+			}
 		}
 	}
-	funcNames, ownerNames := sortedKeys(funcSet), sortedKeys(ownerSet)
-	fieldID, funcID, lockID, ownerID := index(fieldNames), index(funcNames), index(lockNames), index(ownerNames)
+	funcNames, ownerNames, tagNames := sortedKeys(funcSet), sortedKeys(ownerSet), sortedKeys(tagSet)
+	fieldID, funcID, lockID, ownerID, tagID := index(fieldNames), index(funcNames), index(lockNames), index(ownerNames), index(tagNames)
 
 	// ------------------------------------------------------------ output
 	enc := json.NewEncoder(os.Stdout)
@@ -261,8 +272,9 @@ func main() {
 		Funcs       []string `json:"funcs"`
 		Locks       []string `json:"locks"`
 		Owners      []string `json:"owners"`
+		Tags        []string `json:"pub_tags"`
 		SyncObjects []string `json:"sync_objects"`
-	}{"names", fieldNames, funcNames, lockNames, nonNil(ownerNames), syncObjs})
+	}{"names", fieldNames, funcNames, lockNames, nonNil(ownerNames), nonNil(tagNames), syncObjs})
 
 	nRows, nUnsafe, nFields := 0, 0, 0
 	for _, fname := range fieldNames {
@@ -288,6 +300,10 @@ func main() {
 				j = "JInit"
 			case "confined":
 				j = fmt.Sprintf("(JConfined %d)", ownerID[r.owner])
+			case "pub":
+				j = fmt.Sprintf("(JPub %d)", tagID[r.owner])
+			case "after":
+				j = fmt.Sprintf("(JAfter %d)", tagID[r.owner])
 			}
 			coq = append(coq, fmt.Sprintf("mkRow %d %v %d [%s] %s", fieldID[fname], r.write, funcID[r.fn], strings.Join(ids, "; "), j))
 		}
@@ -437,6 +453,12 @@ func safePair(a, b *row) bool {
 	if a.class == "confined" && b.class == "confined" && a.owner == b.owner {
 		return true
 	}
+	if a.class == "pub" && b.class == "pub" && a.owner == b.owner {
+		return true
+	}
+	if (a.class == "pub" && b.class == "after" || a.class == "after" && b.class == "pub") && a.owner == b.owner {
+		return true
+	}
 	for _, l := range a.locks {
 		for _, m := range b.locks {
 			if l == m {
@@ -465,8 +487,8 @@ func reportPair(field string, a, b *row, same bool) {
 }
 
 func classString(r *row) string {
-	if r.class == "confined" {
-		return "confined:" + r.owner
+	if r.class == "confined" || r.class == "pub" || r.class == "after" {
+		return r.class + ":" + r.owner
 	}
 	return r.class
 }
